@@ -351,7 +351,12 @@ Lex(s, i, st, ret, rd) ==
 BeforeNul(s, nul) == LET K == {k \in DOMAIN s : s[k] = nul} IN
                      IF K = {} THEN s ELSE SubSeq(s, 1, (CHOOSE k \in K : \A j \in K : k <= j) - 1)
 LexClass(s, nul)       == "eof-in=" \o Lex(BeforeNul(s, nul), 1, "text", "text", FALSE)
-ReaderLexClass(s, nul) == "eof-in=" \o Lex(BeforeNul(s, nul), 1, "text", "text", TRUE)
+\* (a second part of the class: does the input, up to the first NUL, hold a character outside printable ASCII and the four
+\*  XML whitespace characters - e.g. the vertical tab and form feed that isspace() accepts and the reader's isWhite() does not)
+OddChar(s) == \E i \in DOMAIN s : s[i] \notin Char
+ReaderLexClass(s, nul) == LET b == BeforeNul(s, nul)
+                              ctx == Lex(b, 1, "text", "text", TRUE)
+                          IN "eof-in=" \o ctx \o (IF ctx = "text" /\ OddChar(b) THEN ",ctl-or-high-byte" ELSE "")   \* (inputs that end inside a tag / value / comment keep one class)
 
 \* ---------------------------------------------------------------------------
 \* what a call of readXML may end in, whatever the bytes of the file are
